@@ -24,7 +24,7 @@ Section P.
   Qed.
 
   Ltac crush c i :=
-    destruct c as [ae hm he]; destruct i as [orig op res err nid mok tok pok sw];
+    destruct c as [ae hm he]; destruct i as [orig op res err nid mok tok pok sw ek cx];
     unfold Processed.on_processed, reply_out, expected_settle; simpl;
     destruct orig; simpl; auto;
     destruct (enc res) as [pay|] eqn:Eenc; simpl; auto;
@@ -112,6 +112,30 @@ Section P.
     unfold reply_of, unm_json. rewrite (Hrt _ _ H3), H4, H5, H2. destruct (p_err i); reflexivity.
   Qed.
 
+  (** the handler side looks neither at WHICH error value the handler returned nor at the state of the
+      handler's context: same text => same events, same reply, same settlement *)
+  Theorem error_value_irrelevant c i k x : process c (with_errvalue i k x) = process c i.
+  Proof. destruct i. reflexivity. Qed.
+
+  (** a reply is published for EVERY handler outcome - success or any error value (plain, wrapped,
+      context.Canceled, DeadlineExceeded, the handler context's own Err(), ...) in any context state -
+      whenever marshalling, operation id, Modify hook and topic allow it; it carries the error flag and text *)
+  Theorem reply_for_every_handler_outcome c i :
+    reaches_publish enc c i = true ->
+    exists n, In (PPublish n) (fst (on_processed c i))
+      /\ n_op n = p_op i /\ n_haserr n = is_some (p_err i) /\ n_err n = errtext (p_err i).
+  Proof.
+    unfold reaches_publish. crush c i; intros H; try discriminate;
+      eexists; (split; [simpl; eauto 6|]); simpl; auto.
+  Qed.
+
+  Theorem no_reply_only_if_not_reachable c i n :
+    In (PPublish n) (fst (on_processed c i)) -> reaches_publish enc c i = true.
+  Proof.
+    unfold reaches_publish. crush c i; intros H; simpl in H;
+      repeat (destruct H as [H|H]; try discriminate); try contradiction; auto.
+  Qed.
+
   (** the model passes the acceptor that judges implementation deliveries *)
   Theorem process_accepted c i :
     processed_ok enc c i (fst (process c i)) (snd (process c i)) = true.
@@ -119,6 +143,7 @@ Section P.
     unfold processed_ok. rewrite process_settle.
     assert (Hs : forall s, settle_eqb s s = true) by (intros []; reflexivity). rewrite Hs.
     rewrite process_shape. simpl.
-    crush c i; rewrite ?N.eqb_refl, ?Eenc; simpl; rewrite ?N.eqb_refl; auto.
+    crush c i; rewrite ?N.eqb_refl, ?Eenc; simpl; rewrite ?N.eqb_refl; auto;
+      unfold published_ok, reaches_publish, publishes_of; simpl; rewrite ?Eenc, ?Eop; simpl; auto.
   Qed.
 End P.
